@@ -283,6 +283,24 @@ func VerifC04_ListenWithoutAddress() {
 	verifReach("c04.listen.noaddress")
 }
 
+// extreme dates and times as arguments: years beyond 9999 and before 0 (concrete samples: they are outside the
+// symbolic calendar model) - an error or a garbled request, never a crash
+func VerifC04_ExtremeYears() {
+	verifZone(1)
+	d := &vDriver{err: errVerifNoReply}
+	u := vClient(d)
+	id := nondetU32("id")
+	y := []int{10000, 12345, 99999, -1, -2023}[nondetEnum("year", 5)]
+	date := types.ToDate(y, time.March, 5)
+	u.PutCard(id, types.Card{CardNumber: 8165538, From: date, To: date, Doors: map[uint8]uint8{1: 1}})
+	u.SetTime(id, time.Date(y, time.March, 5, 12, 34, 56, 0, time.Local))
+	seg := types.Segment{Start: types.NewHHmm(8, 30), End: types.NewHHmm(17, 0)}
+	u.SetTimeProfile(id, types.TimeProfile{ID: 29, From: date, To: date, Weekdays: types.Weekdays{time.Monday: true}, Segments: types.Segments{1: seg, 2: seg, 3: seg}})
+	u.AddTask(id, types.Task{Task: types.DoorControlled, Door: 3, From: date, To: date, Weekdays: types.Weekdays{time.Monday: true}, Start: types.NewHHmm(8, 30)})
+	verifObserve("date.zero", date.IsZero())
+	verifReach("c04.extreme.years")
+}
+
 // arbitrary argument values
 func VerifC04_Arguments() {
 	verifZone(1)
